@@ -143,11 +143,18 @@ fn judge_instructions(imp: Impl, container: &V, absent: &[u64], ctx: &mut CaseCt
         let want = if k >= 0 && k < n { items[k as usize].clone() } else { V::Unit };
         probes.push((V::Int(k), want));
     }
-    for (s, want) in keyed(&items) {
-        probes.push((V::Sym(s), want));
+    // every key of a small container; of a large one the ends, the middle and two dozen in between (every probe rebuilds
+    // the container; the data-interface look-up above is checked for every key whatever the size)
+    let all_keys = keyed(&items);
+    let stride = (all_keys.len() / 24).max(1);
+    for (pos, (s, want)) in all_keys.iter().enumerate() {
+        let mid = all_keys.len() / 2;
+        if all_keys.len() <= 40 || pos % stride == 0 || pos + 2 >= all_keys.len() || pos < 2 || (pos + 1 >= mid && pos <= mid + 1) {
+            probes.push((V::Sym(*s), want.clone()));
+        }
     }
     for s in absent {
-        if !keyed(&items).iter().any(|(k, _)| k == s) {
+        if !all_keys.iter().any(|(k, _)| k == s) {
             probes.push((V::Sym(*s), V::Unit));
         }
     }
@@ -227,12 +234,28 @@ fn adversarial_keys(t: &mut Tape, n: usize) -> Vec<u64> {
     keys
 }
 
+/// the key patterns of `adversarial_keys`, without a tape
+fn keys_for(mode: u64, n: usize) -> Vec<u64> {
+    let len = n.max(1) as u64;
+    (0..n as u64)
+        .map(|i| match mode {
+            0 => i * len,
+            1 => u64::MAX - i,
+            2 => i,
+            3 => 100_000 - i,
+            4 => (i * len) + (len - 1),
+            5 => if i % 2 == 0 { i / 2 } else { u64::MAX - i / 2 },
+            _ => (i + 1).wrapping_mul(0x9E37_79B9_7F4A_7C15),
+        })
+        .collect()
+}
+
 impl Check for C16Check {
     fn id(&self) -> &'static str {
         "C16"
     }
     fn rule(&self) -> String {
-        "Phase small-lists: every list of length 0..4 over six item kinds (number, text, symbol, pair keyed by a symbol, pair keyed by a number, nested list holding a keyed pair), distinct keys; phase random: lists of up to 64 items with adversarial raw 64-bit symbol keys (all equal modulo the length, congruent to length-1, minimum and maximum u64, ascending, descending, interleaved extremes, random), and concatenations of two or three such lists. \
+        "Phase small-lists: every list of length 0..4 over six item kinds (number, text, symbol, pair keyed by a symbol, pair keyed by a number, nested list holding a keyed pair), distinct keys; phase random: lists of up to 64 items with adversarial raw 64-bit symbol keys (all equal modulo the length, congruent to length-1, minimum and maximum u64, ascending, descending, interleaved extremes, random), and concatenations of two or three such lists; phase size-sweep: keyed lists (all keyed, every third item unkeyed, split into a concatenation of two lists) of every size in 8..300 (thorough ..1000) around powers of two and round numbers under the seven key patterns. \
          Each container is built through the data API on both data implementations. Oracle (a plain Vec model): get_list_len = n; get_list_item(k) reads back item k for 0<=k<n and reports no item (never an error) past the end; get_list_item_iter yields the items in insertion order; get_list_item_with_symbol returns the value of the pair keyed by each present symbol and 'absent' (never an error) for absent symbols including ones colliding modulo the length; \
          the Access and Apply instructions with every index in {-1, 0, n-1, n, n+3} and every present / absent symbol give the same answers (unit for absent), also on concatenations. \
          Non-trivial = at least two symbol keys plus at least one unkeyed item; distinct = distinct containers."
@@ -242,7 +265,12 @@ impl Check for C16Check {
         vec!["symbol keys within one container are distinct".into(), "negative indexes are only exercised through the instructions (the runtime never passes them to the data interface)".into()]
     }
     fn phases(&self, tier: Tier) -> Vec<Phase> {
-        vec![Phase::exhaustive("small-lists", 1 + 6 + 36 + 216 + 1296).with_chunk(32), Phase::random("random-lists", tier.pick(80_000, 1_000_000), 160).with_min_tape(16).with_chunk(256)]
+        let sizes = crate::model::pipeline::SIZE_SWEEP.iter().filter(|n| **n <= tier.pick(300, 1000)).count() as u64;
+        vec![
+            Phase::exhaustive("small-lists", 1 + 6 + 36 + 216 + 1296).with_chunk(32),
+            Phase::random("random-lists", tier.pick(80_000, 1_000_000), 160).with_min_tape(16).with_chunk(256),
+            Phase::exhaustive("size-sweep", sizes * 7 * 3).with_chunk(1).with_deadline_ms(60_000),
+        ]
     }
     fn run(&self, _tier: Tier, phase: usize, input: &Input, ctx: &mut CaseCtx) {
         match (phase, input) {
@@ -268,6 +296,26 @@ impl Check for C16Check {
                 }
                 ctx.class("small-list");
                 judge(&V::List(items), &[0, 1, 2, 7 + 4, 3 + 8, 99, u64::MAX], ctx);
+            }
+            (2, Input::Index(i)) => {
+                // keyed lists of every size around the usual thresholds, under every key pattern
+                let n = crate::model::pipeline::SIZE_SWEEP[(*i / 21) as usize];
+                let mode = (*i / 3) % 7;
+                let shape = *i % 3;
+                let keys = keys_for(mode, n);
+                let items: Vec<V> = (0..n).map(|p| if shape == 1 && p % 3 == 2 { item_of(Kind::Number, p, 0) } else { item_of(Kind::KeyedPair, p, keys[p]) }).collect();
+                let container = if shape == 2 {
+                    // the same items as a concatenation of two lists
+                    let (a, b) = items.split_at(n / 2);
+                    V::Concat(Box::new(V::List(a.to_vec())), Box::new(V::List(b.to_vec())))
+                } else {
+                    V::List(items)
+                };
+                ctx.class("size-sweep");
+                let len = n as u64;
+                let absent = [keys[0].wrapping_add(len), keys[n - 1] ^ 1, keys[n / 2].wrapping_sub(len), u64::MAX / 3];
+                let absent: Vec<u64> = absent.iter().copied().filter(|k| !keys.contains(k)).collect();
+                judge(&container, &absent, ctx);
             }
             (1, Input::Tape(t)) => {
                 let mut t = Tape::new(t);
